@@ -29,7 +29,7 @@ RingStep ==
          /\ (o # KObs(st, TRUE, FALSE)) => PrintT(<<"DIVERGE", l>>)
     ELSE LET r == KApply(st, a.op, a.k)
              e == KObs(r.s, r.ok, r.s.file # st.file) IN
-         /\ bad' = bad \cup C22Clauses(pre, o)
+         /\ bad' = bad \cup C22Clauses(pre, o) \cup C22ListClauses(a.op, pre, o)
          /\ pre' = o
          /\ IF o = e THEN st' = r.s
             ELSE /\ PrintT(<<"DIVERGE", l>>) /\ st' = FromObs(o)
